@@ -1,7 +1,7 @@
 """C12 -- exists / find_one / children / siblings agree with find (DESIGN 5.6)."""
 from .. import x as X
 from .base import gen_sid
-from .storebase import StoreProfile, gen_search
+from .storebase import StoreProfile, gen_search, typed_prefixes
 from .finders import answer
 
 
@@ -60,6 +60,12 @@ class DerivedProfile(StoreProfile):
             elif kind < 0.6:
                 base = rng.choice(["foo/bar", "hamlet/x", "", "hamlet/a/char/bob/zzz"])
             return {"op": "sid", "sid": base}
+        if rng.random() < 0.15:
+            extra = typed_prefixes(m, ents)
+            if extra:
+                base = rng.choice(extra)
+        if not m.natural_type(base):
+            base = rng.choice(ents)
         s, feats = gen_search(rng, m, self.vocab(run), base, simple=rng.random() < 0.3, allow_last=rng.random() < 0.2)
         party = rng.choice(["P:" + m.default_config, "P:" + m.configs[-1], "L:" + m.default_config, "A", "A"])
         return {"op": "five", "s": s, "party": party, "feats": sorted(feats)}
@@ -156,6 +162,11 @@ class DerivedProfile(StoreProfile):
         # siblings == existing Sids sharing its parent
         sb = X.uris(siblings)
         run.check(sb is not None, "C12.siblings_raises", {"sid": sid, "got": siblings})
+        if "/" not in sid:
+            # the root level: the existing Sids of that level (a one-key Sid is its own parent)
+            want = st.find_all_simple("*")
+            if want is not None:
+                run.check(set(sb) == want, "C12.siblings_vs_model", {"sid": sid, "got": sorted(sb), "want": sorted(want)})
         if "/" in sid:
             par = sid.rsplit("/", 1)[0]
             want = st.find_all_simple(par + "/*")
